@@ -108,7 +108,10 @@ impl Check for C03 {
         tier.pick(12_000, 300_000)
     }
     fn strategy(&self, _tier: Tier) -> BoxedStrategy<Case> {
-        let c = c01::cfg();
+        // predicate names that are the h-/t-prefixed spelling of another predicate of the pool
+        let mut c = c01::cfg();
+        c.preds.push(("tp".into(), 1));
+        c.preds.push(("hq".into(), 1));
         let pair = (ga::shaped_program(&c, 1), ga::shaped_rule(&c), 0u8..6, any::<u8>()).prop_map(|(left, extra, kind, pos)| {
             let mut right = left.clone();
             let n = right.rules.len();
